@@ -98,11 +98,13 @@ type Ctx struct {
 	Idx     int
 	R       *gen.R
 	Verbose bool
-	res     *Result
-	hashes  map[uint64]struct{}
-	sets    map[string]map[uint64]struct{}
-	caseStr string
-	capture *[]Violation // when set, Violation() collects here instead of reporting
+	// coldDone: the cold-start trial of this case has run (a re-examination is a warm trial)
+	coldDone bool
+	res      *Result
+	hashes   map[uint64]struct{}
+	sets     map[string]map[uint64]struct{}
+	caseStr  string
+	capture  *[]Violation // when set, Violation() collects here instead of reporting
 }
 
 // Captured runs fn with violations collected instead of reported and returns them.
